@@ -94,7 +94,84 @@ pub fn random_backend(rng: &mut rand::rngs::StdRng, len: usize) -> Backend {
 	Backend::Reader { last, sched, max_alloc }
 }
 
+/// Arrays and maps split into several blocks whose lengths sit around `max_seq_size`: the total
+/// of *all* blocks so far is what the limit bounds (a sum of the last two, or of one block, is
+/// not), with positive and negative counts, zero-sized and sized items.
+fn generate_seqlimit(seed: u64, n: usize, emit: &mut dyn FnMut(String)) {
+	let mut rng = rng_from(seed, "de-seqlimit");
+	for _ in 0..n {
+		let item = [Reg::Null, Reg::Null, Reg::Int, Reg::String, Reg::Boolean].choose(&mut rng).unwrap().clone();
+		let is_map = rng.gen_bool(0.3);
+		let mut schema = vec![
+			RawNode { reg: if is_map { Reg::Map(1) } else { Reg::Array(1) }, logical: None },
+			RawNode { reg: item, logical: None },
+		];
+		let wrap = rng.gen_bool(0.3);
+		if wrap {
+			// record { a: int, s: <seq> }
+			schema.insert(0, RawNode { reg: Reg::Record("R".into(), vec![("a".into(), 3), ("s".into(), 1)]), logical: None });
+			schema[1].reg = if is_map { Reg::Map(2) } else { Reg::Array(2) };
+			schema.push(RawNode { reg: Reg::Int, logical: None });
+		}
+		let nblocks = rng.gen_range(1..=6);
+		let unit = *[1usize, 2, 5, 10, 30].choose(&mut rng).unwrap();
+		let sizes: Vec<usize> = (0..nblocks)
+			.map(|_| if rng.gen_bool(0.5) { unit * rng.gen_range(1..=3) } else { rng.gen_range(1..=40) })
+			.collect();
+		let total: usize = sizes.iter().sum();
+		let max_pair = sizes.windows(2).map(|w| w[0] + w[1]).max().unwrap_or(sizes[0]);
+		let max_one = *sizes.iter().max().unwrap();
+		let max_seq = match rng.gen_range(0..8) {
+			0 => total,
+			1 => total.saturating_sub(1),
+			2 => total + 1,
+			3 => max_pair,
+			4 => max_pair + 1,
+			5 => max_one,
+			6 => rng.gen_range(0..=total + 2),
+			_ => 1_000_000,
+		};
+		let mut bytes = vec![];
+		let mut dg = DatumGen { rng: &mut rng, schema: &schema, fancy_layout: false, nonminimal: 0.0 };
+		if wrap {
+			dg.gen(3, 1, &mut bytes);
+		}
+		let item_idx = if wrap { 2 } else { 1 };
+		let mut key = 0usize;
+		for &c in &sizes {
+			let mut body = vec![];
+			for _ in 0..c {
+				if is_map {
+					let k = format!("k{key}");
+					key += 1;
+					dg.long(k.len() as i64, &mut body);
+					body.extend_from_slice(k.as_bytes());
+				}
+				dg.gen(item_idx, 2, &mut body);
+			}
+			if dg.rng.gen_bool(0.4) {
+				dg.long(-(c as i64), &mut bytes);
+				dg.long(body.len() as i64, &mut bytes);
+			} else {
+				dg.long(c as i64, &mut bytes);
+			}
+			bytes.extend_from_slice(&body);
+		}
+		dg.long(0, &mut bytes);
+		let hint = match rng.gen_range(0..3) {
+			0 => Hint::Any,
+			1 => skip_hint(&mut rng, &schema, 0, 0),
+			_ => shape_hint(&mut rng, &schema, 0, 0, 0.0),
+		};
+		let backend = if rng.gen_bool(0.4) { random_backend(&mut rng, bytes.len()) } else { Backend::Slice };
+		emit(case_line(&backend, max_seq, 64, &schema, &hint, &bytes));
+	}
+}
+
 pub fn generate(stream: &str, seed: u64, n: usize, emit: &mut dyn FnMut(String)) {
+	if stream == "de-seqlimit" {
+		return generate_seqlimit(seed, n, emit);
+	}
 	let mut rng = rng_from(seed, stream);
 	for i in 0..n {
 		let max_nodes = if i % 10 == 0 { 24 } else { 10 };
